@@ -19,6 +19,8 @@ import (
 	"strings"
 	"sync"
 	"time"
+	"unicode"
+	"unicode/utf8"
 
 	"github.com/jackc/pgproto3/v2"
 )
@@ -102,9 +104,49 @@ func (c *resultCache) removeOrder(key string) {
 }
 
 func cacheKey(query string, parsedQueryKey string) string {
-	normalized := strings.ToLower(strings.Join(strings.Fields(query), " "))
+	normalized := normalizeQueryText(query)
 	if parsedQueryKey == "" {
 		return normalized
 	}
 	return normalized + "|" + parsedQueryKey
+}
+
+// normalizeQueryText lower-cases the query and collapses runs of whitespace so
+// that differently formatted spellings of one query share a cache entry.
+// Quoted text is copied verbatim: JSON paths and other literals are case- and
+// whitespace-sensitive, so queries that differ only there are different queries.
+func normalizeQueryText(query string) string {
+	var b strings.Builder
+	b.Grow(len(query))
+	var quote rune
+	space := false
+	for i := 0; i < len(query); {
+		r, size := utf8.DecodeRuneInString(query[i:])
+		raw := query[i : i+size]
+		i += size
+		switch {
+		case quote != 0:
+			b.WriteString(raw)
+			if r == quote {
+				quote = 0
+			}
+		case unicode.IsSpace(r):
+			space = b.Len() > 0
+		default:
+			if space {
+				b.WriteByte(' ')
+				space = false
+			}
+			switch {
+			case r == '\'' || r == '"':
+				quote = r
+				b.WriteString(raw)
+			case r == utf8.RuneError:
+				b.WriteString(raw)
+			default:
+				b.WriteRune(unicode.ToLower(r))
+			}
+		}
+	}
+	return b.String()
 }
